@@ -332,9 +332,9 @@ func (s *subsetter) SubsetGsub(old *gtab.Info) *gtab.Info {
 			}
 		}
 
-		if len(tNew.Subtables) > 0 {
-			res.LookupList = append(res.LookupList, tNew)
-		}
+		// Keep lookups which have become empty: features refer to lookups
+		// by index, so removing one would re-point the features.
+		res.LookupList = append(res.LookupList, tNew)
 	}
 
 	return &res
